@@ -70,7 +70,7 @@ func HarnessSortContract() {
 	vSortMode = 2
 	m := NewServiceMap()
 	m.services["x"] = &Service{name: "x", options: ServiceOptions{Hosts: []string{"h"}, PathPrefixes: []string{"/", "/a"}}}
-	m.updateRequestServiceMap()
+	vCallMethod(m, "updateRequestServiceMap")
 	vAssert(vSortCmp != nil, "sort: comparator captured")
 	in := []*pathBinding{}
 	for i := 0; i < N; i++ {
@@ -223,7 +223,7 @@ func HarnessOwnStep() {
 		svcs = append(svcs, s)
 		r.services.services[s.name] = s
 	}
-	r.services.updateRequestServiceMap()
+	vCallMethod(r.services, "updateRequestServiceMap")
 
 	if vChoose("op", 2) == 1 {
 		// remove
